@@ -2,9 +2,23 @@
 HARNESSES = [
     COMMON["aead"]("seal_layout12", 2, [(17, "quick"), (40, "quick")]),
     COMMON["aead"]("seal_layout13", 4, [(1, "quick"), (40, "quick")]),
+    dict(name="dh_secret13", src="dh_secret13.c", checks=COMMON["MEMCHECKS"],
+         units=["matrixssl/hsNegotiateVersion.c"],
+         functions=["tls13GenSharedSecretDh"], sources=["matrixssl/tls13KeyAgree.c"],
+         assumptions=["dh_secret13: psDhGenSharedSecret is a contract stub returning any magnitude of 1..size bytes without leading zeros (or failure); prime size scaled to 8 bytes; allocation succeeds"],
+         unwind=18,
+         cases=[dict(name="p8", defs={"VF_PSIZE": 8})]),
+    dict(name="suite_hash", src="suite_hash.c", checks=[],
+         units=["matrixssl/hsNegotiateVersion.c"],
+         functions=["extMasterSecretSnapshotHSHash", "sslSnapshotHSHash", "tlsGenerateFinishedHash"],
+         sources=["matrixssl/hsHash.c", "matrixssl/cipherSuite.c"],
+         assumptions=["suite_hash: ssl->cipher ranges over every entry of the real supportedCiphers table (TLS 1.3-only suites excluded); version enumerated; digest finalisation, prf and prf2 are logging stubs; oracle = IANA registry (suites named *_SHA384 use SHA-384)"],
+         unwind=260,
+         cases=[dict(name="%s_op%d" % (nm, op), defs={"VF_VER": v, "VF_OP": op})
+                for nm, v in (("tls12", "(v_tls_1_2|v_tls_negotiated)"), ("tls11", "(v_tls_1_1|v_tls_negotiated)"), ("dtls12", "(v_dtls_1_2|v_tls_negotiated)")) for op in (0, 1)]),
 ]
 PROPERTY = dict(level='model_checking',
-    claim='Seal side of the record protection glue follows RFC 5288 / RFC 8446 5.2-5.3: nonce, AAD, ciphertext followed by a 16-byte tag, sequence number advanced by one.',
+    claim='Seal side of the record protection glue follows RFC 5288 / RFC 8446 5.2-5.3: nonce, AAD, ciphertext followed by a 16-byte tag, sequence number advanced by one. RFC 7627 session_hash and the Finished verify_data use SHA-384 (hash and PRF) exactly for the suites the IANA registry names *_SHA384, SHA-256 for every other TLS 1.2 suite and MD5+SHA-1 below TLS 1.2, for every suite of the real table. The TLS 1.3 finite-field shared secret is left-padded with zeros to the size of the prime (RFC 8446 7.4.1).',
     bounds='record lengths 1..40 enumerated',
     outside='interoperation with an independent stack cannot be a solver query; PRF / HKDF-label / key-schedule / Finished call-trace equivalence (C10.a/b) not yet encoded',
     explanation='Seal side of the record protection glue follows RFC 5288 / RFC 8446 5.2-5.3: nonce, AAD, ciphertext followed by a 16-byte tag, sequence number advanced by one.',
